@@ -29,7 +29,20 @@ def run(ctx):
     def classify(cid, req, real, model):
         return "c09-corr:" + req
 
-    bad = verif.diff_corr(ctx, cases, "c09-arith", classify)
+    def norm(ans):
+        # integer representation is not part of the property: `G<n>` that fits a machine integer ~ `I<n>`
+        toks = []
+        for t in ans.split(" "):
+            if t[:1] == "G":
+                try:
+                    if -2 ** 63 <= int(t[1:]) < 2 ** 63:
+                        t = "I" + t[1:]
+                except ValueError:
+                    pass
+            toks.append(t)
+        return " ".join(toks)
+
+    bad = verif.diff_corr(ctx, cases, "c09-arith", classify, harmless=lambda req, real, m: norm(real) == norm(m))
     ctx.log("correspondence: %d cases, %d disagreements, %d panics" % (len(cases), bad, len(panics)))
 
     meta = ctx.harness(["c09", "meta"])
